@@ -159,7 +159,7 @@ def judge(v, traces, scs, labels, terminal_labels, tag='seq'):
         r = vlib.run_tlc('SequencerMon', cfg, workers=8, env={'TRACE_FILE': path}, timeout=2400, heap='8g')
         os.remove(path)
         if not r.ok:
-            raise MachineryFailure(f'SequencerMon: {r.error_text[:3000]}')
+            raise MachineryFailure(f'SequencerMon: rc={r.rc} timed_out={r.timed_out} {r.error_text[:3000] or r.stdout[-1500:]}')
         done = {int(json.loads(l)[2:]) for l in r.stdout.splitlines() if l.startswith('"D ')}
         if done != {t['id'] for t in chunk}:
             raise MachineryFailure(f'SequencerMon: {len(done)} traces completed out of {len(chunk)}')
